@@ -10,7 +10,7 @@
    engine) and ties the implementation model to the engine by comparing error sets. *)
 From Coq Require Import ZArith List String Bool.
 From TV Require Import Py.Prelude Model.Schema Model.ImplInput Model.ImplExec Model.Envelope
-     Model.ImplValidate Model.SpecValidate Model.RunValidate Proofs.ValidateProofs Proofs.ValidateRules Proofs.ValidateValues Proofs.ValidateSites Proofs.ValidateWalk.
+     Model.ImplValidate Model.SpecValidate Model.RunValidate Proofs.ValidateProofs Proofs.ValidateRules Proofs.ValidateValues Proofs.ValidateSites Proofs.ValidateWalk Proofs.ValidateTree.
 Import ListNotations.
 Open Scope string_scope.
 Open Scope list_scope.
@@ -120,6 +120,31 @@ Theorem C06_field_node_exact V
                         existsb (fun a => String.eqb (a_name a) (in_name d)) args) (fd_args f) = true)).
 Proof. exact (field_node_quiet V Hin scope path l name args dirs hs). Qed.
 
+(* ACCEPTANCE CHARACTERISED (Proofs/ValidateTree.v): the engine hands a document to execution EXACTLY when
+   every node of every selection tree satisfies the specification's predicates at that node (`doc_walk_ok`:
+   argument names / uniqueness / required arguments, values of correct type at every depth, input-field
+   uniqueness inside literals, directives defined / unique / in valid locations with their own argument
+   rules, field exists, leaf selections, type conditions existing and composite, variable definitions) with
+   the scope handed down the tree, the fragment graph is acyclic, operation and fragment names are unique,
+   an anonymous operation is alone, every spread names a defined fragment, every fragment is used -- and the
+   five rule functions not yet related to the specification (single root field, possible spreads, the three
+   variable rules) report nothing.  Hypotheses: expected types of values are input types (C12). *)
+Theorem C06_acceptance_characterised V
+  (Hin : forall n ifs f, vfind_type V n = Some (DInput ifs) -> In f ifs -> input_ty V (in_type f))
+  (Hfields : forall scope name f d, vfind_field V scope name = Some f -> In d (fd_args f) -> input_ty V (in_type d))
+  (Hdirs : forall n dd d, vfind_directive V n = Some dd -> In d (dd_args dd) -> input_ty V (in_type d)) doc :
+  accepted V doc = true <->
+  doc_walk_ok V doc = true /\
+  acyclic (fragments doc) /\ r_operation_names doc = true /\ r_lone_anonymous doc = true /\
+  r_fragment_names doc = true /\ r_spread_targets V doc = true /\ r_fragments_used V doc = true /\
+  quiet (single_root_rule doc) /\
+  inline_possible_errors V (inlined_in (ValidateWalk.walked V doc)) ++
+    spread_possible_errors V (fragments doc) (spreaded_in (ValidateWalk.walked V doc)) = [] /\
+  quiet (uses_defined_rule (ValidateWalk.walked V doc) (operations doc)) /\
+  quiet (variables_used_rule (ValidateWalk.walked V doc) (operations doc)) /\
+  quiet (usages_allowed_rule V (ValidateWalk.walked V doc) (operations doc)).
+Proof. exact (accepted_characterised V Hin Hfields Hdirs doc). Qed.
+
 (* a document the walk accepts is executed: the response is that of the executor on that document *)
 Theorem C06_accepted_documents_run {A} (coercer : gerr -> A) V U cfg doc opname raw root :
   impl_validate V doc = VErrors [] ->
@@ -161,3 +186,4 @@ Print Assumptions C06_acceptance_decomposed.
 Print Assumptions C06_correct_values_accepted.
 Print Assumptions C06_correct_arguments_accepted.
 Print Assumptions C06_field_node_exact.
+Print Assumptions C06_acceptance_characterised.
